@@ -210,17 +210,30 @@ def gen_host(seed):
         indent = len(line) - len(line.lstrip())
         # may an ELSE / ELSEIF still be written here?  (innermost block an IF block, the site not in its ELSE arm,
         # and for ELSE: no ELSEIF or ELSE arm further down)
-        ce = ci = False
+        ce = ci = cs = False
         p = info['parent']
         if blocks and blocks[-1] == 'if' and p:
             pk = li[p - 1]['kinds'][0]
             if pk in ('if', 'elseif'):
                 header = p if pk == 'if' else li[p - 1]['parent']
-                later = [li[j]['kinds'][0] for j in range(i, len(li)) if li[j]['kinds'] and li[j]['parent'] == header
-                         and li[j]['kinds'][0] in ('elseif', 'else')]
-                ci = True
-                ce = not later
-        sites.append({'routine': routine, 'blocks': blocks, 'before': off + i + 1, 'indent': indent, 'ce': ce, 'ci': ci})
+                arms = [(j, li[j]['kinds'][0]) for j in range(len(li)) if li[j]['kinds'] and li[j]['parent'] == header
+                        and li[j]['kinds'][0] in ('elseif', 'else')]
+                if k0 == 'endif':
+                    # in front of END IF: the last arm of the block
+                    ci = ce = not any(k == 'else' for _, k in arms)
+                else:
+                    ci = True
+                    ce = not [1 for j, k in arms if j >= i]
+        if blocks and blocks[-1] == 'select' and p:
+            # a CASE 1 clause is only well typed under a numeric selector; after CASE ELSE it is not tried
+            q = p
+            while q and li[q - 1]['kinds'][0] != 'select':
+                q = li[q - 1]['parent']
+            hdr = body[q - 1] if q else ''
+            in_else = li[p - 1]['kinds'][0] == 'caseelse' or (k0 == 'endselect' and any(
+                li[j]['kinds'] and li[j]['kinds'][0] == 'caseelse' and li[j]['parent'] == q for j in range(len(li))))
+            cs = bool(q) and '$' not in hdr and '"' not in hdr and not in_else
+        sites.append({'routine': routine, 'blocks': blocks, 'before': off + i + 1, 'indent': indent, 'ce': ce, 'ci': ci, 'cs': cs})
         if k0 in ('endsub', 'endfunction'):
             routine = 'main'
     return lines, sites, text
@@ -272,7 +285,7 @@ def build(lines, site, fault, noise):
         rstart, endline = inside[0][0] + 1, inside[0][1] + 1
     elif starts:
         endline = starts[0]
-    if FAULT_RULE_SPAN.get(fault):
+    if FAULT_RULE_SPAN.get(fault) or (fault in ('stray-else', 'stray-elseif') and site['blocks'] and site['blocks'][-1] == 'if'):
         inj1 = rstart
     return '\n'.join(out) + '\n', inj1, inj2, endline
 
@@ -334,20 +347,22 @@ def _run(ctx, work):
     for hi, (lines, sites, text) in enumerate(ghosts):
         rng.shuffle(sites)
         for si, s in enumerate(sites[:ctx.pick(4, 12)]):
-            extra.append({'name': 'g%d_%d' % (hi, si), 'routine': s['routine'], 'blocks': s['blocks'], 'ce': s['ce'], 'ci': s['ci'], '_host': hi, '_site': s})
+            extra.append({'name': 'g%d_%d' % (hi, si), 'routine': s['routine'], 'blocks': s['blocks'], 'ce': s['ce'], 'ci': s['ci'], 'cs': s['cs'], '_host': hi, '_site': s})
     names = sorted(FAULTS)
     gobs = []
     for e in extra:
         for f in names:
             if ctx.quick() and (hash_of([e['name'], f]) % 4):
                 continue
+            if f == 'stray-case' and e['blocks'] and e['blocks'][-1] == 'select' and not e['cs']:
+                continue      # `CASE 1` under a string selector is a type mismatch, after CASE ELSE it is a matter of taste
             sc = {'fault': f, 'site': e['name'], 'noise': rng.choice(sorted(NOISE)), 'O': rng.choice([0, 1, 2]), 'g': rng.random() < 0.5}
             jobs.append((oid, ghosts[e['_host']][0], e['_site'], sc))
             oid += 1
     obs = par.pmap(_job, jobs, chunk=8)
     # verdicts (the generated hosts' sites are passed as extra sites)
     spath = os.path.join(work, 'sites.json')
-    tlc.write_json(spath, [{'name': e['name'], 'routine': e['routine'], 'blocks': e['blocks'], 'ce': e['ce'], 'ci': e['ci']} for e in extra])
+    tlc.write_json(spath, [{'name': e['name'], 'routine': e['routine'], 'blocks': e['blocks'], 'ce': e['ce'], 'ci': e['ci'], 'cs': e['cs']} for e in extra])
     verd = {}
     SH = 6000
     for si in range(0, len(obs), SH):
